@@ -74,6 +74,17 @@ stands in the condition of an `if` whose body returns an error (`admitOraclePric
 Re-introducing F-10a (dropping the result, or dropping the call) flips one of the two literals. -/
 theorem C10_tie_oracle_sig_checked : oracleSigResultDiscarded = false ∧ oracleSigResultChecked = true := by decide
 
+/-- … and it is checked for EVERY signer of the transaction (`admitOraclePriceTx` = `rs.all …`): the
+oracle branch holds exactly one loop, over the `sigs` of `GetSignaturesV2`; the only ways out of its body
+are returns of an error; the VerifySignature guard is a statement of the loop body itself; `next` is
+called after the loop. A `return next(…)` inside the loop (only the first creator's signature verified)
+shows up in `oracleSigLoopExits` / `oracleSigLoopFollowedBy`. -/
+theorem C10_tie_oracle_every_signer_checked :
+    oracleSigLoopCount = 1 ∧ oracleSigLoopHeader = "for i, sig := range sigs" ∧
+    oracleSigLoopSigsSource = "sigTx.GetSignaturesV2()" ∧
+    oracleSigLoopExits = ["return-error", "return-error", "return-error"] ∧
+    oracleSigLoopGuardTopLevel = true ∧ oracleSigLoopFollowedBy = "return next(ctx, tx, simulate)" := by decide
+
 /-- all five UpdateParams handlers use the same condition (`admitUpdateParams`) -/
 theorem C10_tie_update_params :
     updateParamsAuthority.map (·.2) =
